@@ -32,13 +32,27 @@ func init() {
 var mediaEls = []string{"audio", "img", "link", "script", "video"}
 
 func c12BaseCalls(admit bool) []C {
+	if admit {
+		return c12BaseCallsMode(1)
+	}
+	return c12BaseCallsMode(0)
+}
+
+// mode: 0 = crossorigin / sandbox not admitted, 1 = admitted per element, 2 = through an element pattern, 3 = globally
+func c12BaseCallsMode(mode int) []C {
 	calls := []C{
 		attrsOn([]string{"src", "title"}, "", "audio", "img", "script", "video", "iframe"),
 		attrsOn([]string{"href", "title"}, "", "link"),
 		opt("AllowUnsafe", true),
 	}
-	if admit {
+	switch mode {
+	case 1:
 		calls = append(calls, attrsOn([]string{"crossorigin"}, "", "audio", "img", "link", "script", "video"), attrsOn([]string{"sandbox"}, "", "iframe"))
+	case 2:
+		// elements reachable through the pattern only (an explicit element rule would shadow the pattern's rules)
+		calls = []C{opt("AllowUnsafe", true), attrsPat([]string{"src", "href", "title", "crossorigin", "sandbox"}, "", `^(audio|img|link|script|video|iframe)$`)}
+	case 3:
+		calls = append(calls, attrsGlob([]string{"crossorigin", "sandbox"}, ""))
 	}
 	return calls
 }
@@ -49,6 +63,23 @@ func c12Specs(c *run.Ctx) (media, frames []built) {
 		media = append(media, build(spec.Spec{Name: fmt.Sprintf("c12-co-admit%d", admit), Base: "new", Calls: calls}))
 		calls2 := append(append([]C{}, calls...), opt("RequireCrossOriginAnonymous", false), opt("RequireCrossOriginAnonymous", true), C{Op: "AllowDataAttributes"})
 		media = append(media, build(spec.Spec{Name: fmt.Sprintf("c12-co-toggled-admit%d", admit), Base: "new", Calls: calls2}))
+	}
+	for mode := 2; mode <= 3; mode++ {
+		media = append(media, build(spec.Spec{Name: fmt.Sprintf("c12-co-admitmode%d", mode), Base: "new", Calls: append(c12BaseCallsMode(mode), opt("RequireCrossOriginAnonymous", true))}))
+		for si, set := range [][]int{{}, {2, 10}} {
+			frames = append(frames, build(spec.Spec{Name: fmt.Sprintf("c12-sb-admitmode%d-set%d", mode, si), Base: "new", Calls: append(c12BaseCallsMode(mode), C{Op: "RequireSandboxOnIFrame", Ints: set})}))
+		}
+	}
+	// the sandbox list set more than once: the last call decides
+	for admit := 0; admit < 2; admit++ {
+		for hi, h := range [][]C{
+			{{Op: "RequireSandboxOnIFrame", Ints: []int{2, 10}}, {Op: "RequireSandboxOnIFrame", Ints: []int{5}}},
+			{{Op: "RequireSandboxOnIFrame", Ints: []int{2, 10}}, {Op: "RequireSandboxOnIFrame"}},
+			{{Op: "AllowIFrames", Ints: []int{2, 10, 11}}, {Op: "RequireSandboxOnIFrame", Ints: []int{2}}},
+			{{Op: "RequireSandboxOnIFrame"}, {Op: "RequireSandboxOnIFrame", Ints: []int{0, 13}}},
+		} {
+			frames = append(frames, build(spec.Spec{Name: fmt.Sprintf("c12-sb-twice%d-admit%d", hi, admit), Base: "new", Calls: append(c12BaseCalls(admit == 1), h...)}))
+		}
 	}
 	var sets [][]int
 	sets = append(sets, []int{})
